@@ -87,6 +87,9 @@ int rtr_bgpsec_validate_as_path(const struct rtr_bgpsec *data, struct spki_table
 	 */
 	struct rtr_signature_seg *tmp_sig = NULL;
 
+	/* The Secure_Path Segment that belongs to tmp_sig. */
+	struct rtr_secure_path_seg *tmp_sec = NULL;
+
 	/* Temp variable that holds the signature length of the of the
 	 * next signature segment.
 	 */
@@ -169,6 +172,7 @@ int rtr_bgpsec_validate_as_path(const struct rtr_bgpsec *data, struct spki_table
 	 */
 	retval = RTR_BGPSEC_VALID;
 	tmp_sig = data->sigs;
+	tmp_sec = data->path;
 
 	for (unsigned int offset = 0, next_offset = 0; offset <= get_stream_size(s) && retval == RTR_BGPSEC_VALID;
 	     offset += next_offset) {
@@ -208,8 +212,17 @@ int rtr_bgpsec_validate_as_path(const struct rtr_bgpsec *data, struct spki_table
 			goto err;
 		}
 
+		/* Without a key of the right AS the signature cannot be valid. */
+		retval = RTR_BGPSEC_NOT_VALID;
+
 		/* Loop in case there are multiple router keys for one SKI. */
 		for (unsigned int j = 0; j < router_keys_len; j++) {
+			/* A signature only verifies under a router key of the AS
+			 * that added the corresponding Secure_Path Segment.
+			 */
+			if (tmp_key && tmp_sec && tmp_key[j].asn != tmp_sec->asn)
+				continue;
+
 			/* Validate the siganture depending on the algorithm
 			 * suite. More if-cases are added with new algorithm
 			 * suites.
@@ -231,6 +244,8 @@ int rtr_bgpsec_validate_as_path(const struct rtr_bgpsec *data, struct spki_table
 		hash_result = NULL;
 		tmp_key = NULL;
 		tmp_sig = tmp_sig->next;
+		if (tmp_sec)
+			tmp_sec = tmp_sec->next;
 	}
 
 err:
